@@ -157,6 +157,8 @@ func runC15(s *kernel.Sim) {
 	if tp.Chance(1, 2) {
 		deepW, deepUsers = 4, nIDs
 	}
+	zeroDur := tp.Chance(1, 2) // a third of the records of half of the runs took 0 ms
+	s.Knobs["zero_durations"] = zeroDur
 	var recs []common.AccessLog
 	nonInternal := 0
 	for i := 0; i < n; i++ {
@@ -172,8 +174,12 @@ func runC15(s *kernel.Sim) {
 			url = fmt.Sprintf("api.com/user/%d/posts/%d/comments", 100+tp.Choose(deepUsers), tp.Choose(nIDs))
 		}
 		dur := 1 + tp.Choose(1000)
+		tot := dur + tp.Choose(50)
+		if zeroDur && tp.Chance(1, 3) { // HAProxy reports whole milliseconds: 0 is a legal duration
+			dur, tot = 0, 0
+		}
 		r := common.AccessLog{
-			Timestamp: int64(1_700_000_000+tp.Choose(100000)) * 1000, Duration: dur, TotalDuration: dur + tp.Choose(50),
+			Timestamp: int64(1_700_000_000+tp.Choose(100000)) * 1000, Duration: dur, TotalDuration: tot,
 			StatusCode: statuses[tp.Choose(len(statuses))], Method: methods[tp.Choose(2)], Host: "api.com", URL: url,
 			Interceptor: interceptors[tp.Choose(len(interceptors))], ConsumerTag: consumers[tp.Choose(3)],
 			Internal: tp.Chance(1, 10), RequestID: fmt.Sprintf("r%d", i),
